@@ -167,10 +167,10 @@ def _check_gap(s, src, a, b, end_of_input=False):
     may be there"""
     i = a
     while i < b:
-        if src.startswith("\\\n", i):
+        if src.startswith("\\\n", i) and i + 2 <= b:
             i += 2
             continue
-        if src.startswith("??/\n", i):
+        if src.startswith("??/\n", i) and i + 4 <= b:
             i += 4
             continue
         s.count("lex.bad_lexeme_reported")
@@ -407,13 +407,12 @@ def _wrap_registry():
                             last.type if last else None, sb, _scope_sig(self), over))
             s.stmt_index += 1
         else:
-            # nothing matched since the last pop: the registry drops one token
-            if before:
-                t = toks[0]
+            # nothing matched since the last pop: the registry drops what it could not recognise
+            for t in toks[:max(popped, 1)]:
                 s.unrec.append((t.type, tuple(t.pos)))
-            s.count("seg.unrecognised_pop_is_one")
-            if stop != 1:
-                s.seg_fail.append(("UNRECOGNISED_POP", stop))
+            s.count("seg.unrecognised_pop_progress")
+            if before and popped < 1:
+                s.seg_fail.append(("UNRECOGNISED_POP_NO_PROGRESS", stop))
         return r
 
     Registry.run = run
